@@ -26,6 +26,8 @@ func main() {
 		runFileLog()
 	case "fieldlist":
 		runFieldList()
+	case "api":
+		runApi()
 	default:
 		fmt.Fprintf(os.Stderr, "unknown subcommand %q\n", os.Args[1])
 		os.Exit(2)
